@@ -5,7 +5,7 @@ package nebula
 // C42 — certificate reload never changes a node's identity.
 //
 // Engine E2: explicit-state BFS by history replay over the REAL PKI. Every history starts from a fresh config.C +
-// NewPKIFromConfig (one of four initial certificate states) and submits reloads through the real
+// NewPKIFromConfig (one of the initial certificate states of c42Inits) and submits reloads through the real
 // config.C.ReloadConfigString -> PKI.reload callback. One event is one complete (certificate bundle, private key, CA
 // configuration) triple; all triples over the alphabets below are offered in every state, so a state's successors are
 // "every reload an operator could push". After every attempt the certificate state and trust store in use are read
@@ -13,6 +13,13 @@ package nebula
 // material it minted itself (version, key pair, curve, networks, expiry). Two real tunnels (peers signed by two
 // different CAs) sit in a real HostMap under a real connectionManager; after every reload "the next check" (the real
 // doTrafficCheck) runs for both and a newly blocklisted / untrusted peer must be gone.
+//
+// Network order: certificates carry extra networks that sort AFTER the primary network N (X) and BEFORE it (L). A v2
+// certificate sorts its networks when signed, so one issued for {N, L} has L as ITS primary network although it contains
+// N; v1 keeps the given order (both orders minted). Such certificates are offered as an added version, a replacing version
+// and with both versions submitted, from initial states on either side (N-led and L-led). Judged after every accepted
+// reload and every initial load: the node's own primary address / first network (CertState.myVpnAddrs/myVpnNetworks) did
+// not move, and the v1 and v2 certificates in use share the primary network (each one's first network is the node's).
 
 import (
 	"bytes"
@@ -93,7 +100,8 @@ const (
 	c42N  = "10.0.0.1/24"
 	c42Np = "10.9.9.9/24" // a different network (S9)
 	c42Nm = "10.0.0.1/16" // same address, different mask
-	c42X  = "10.5.5.1/24" // an extra network
+	c42X  = "10.5.5.1/24" // an extra network that sorts AFTER the primary one
+	c42L  = "9.9.9.1/24"  // an extra network that sorts BEFORE the primary one (v2 certificates sort their networks when signed)
 )
 
 func c42Material_() *c42Material {
@@ -159,6 +167,24 @@ func c42Material_() *c42Material {
 		mint("v2NX", cert.Version2, "k1", c42N+","+c42X, false, 0)
 		mint("v2M", cert.Version2, "k1", c42Nm, false, 0)
 		mint("v2Nexp", cert.Version2, "k1", c42N, true, 0)
+		// extra network that sorts before the primary one. v1 keeps the order it was given (both orders are legal), a v2
+		// certificate issued for {N, L} lists L first: its primary network is L although it contains N
+		mint("v1NL", cert.Version1, "k1", c42N+","+c42L, false, 0)
+		mint("v1LN", cert.Version1, "k1", c42L+","+c42N, false, 0)
+		mint("v2LN", cert.Version2, "k1", c42N+","+c42L, false, 0)
+		mint("v2LN'", cert.Version2, "k1", c42L+","+c42N, false, time.Hour)
+		mint("v2LNX", cert.Version2, "k1", c42N+","+c42X+","+c42L, false, 0)
+		mint("v1NLX", cert.Version1, "k1", c42N+","+c42L+","+c42X, false, 0)
+		for _, id := range []string{"v2LN", "v2LN'", "v2LNX", "v1LN"} {
+			if mt.certs[id].nets[0] != netip.MustParsePrefix(c42L) {
+				panic("c42: " + id + " does not list the lower network first")
+			}
+		}
+		for _, id := range []string{"v1NL", "v1NLX", "v1NX", "v2NX"} {
+			if mt.certs[id].nets[0] != netip.MustParsePrefix(c42N) {
+				panic("c42: " + id + " does not list the primary network first")
+			}
+		}
 		// k2: another 25519 key pair; k3: a P256 key pair
 		mint("v1N/k2", cert.Version1, "k2", c42N, false, 0)
 		mint("v2N/k2", cert.Version2, "k2", c42N, false, 0)
@@ -216,11 +242,11 @@ func (mt *c42Material) bundle(ids ...string) c42Bundle {
 
 // alphabets: quick is a subset of thorough
 func (mt *c42Material) alphabets(thorough bool) (bundles []c42Bundle, keys []string, cas []string) {
-	v1s := []string{"v1N", "v1N'", "v1P", "v1NX", "v1N/k2", "v1N/p256"}
-	v2s := []string{"v2N", "v2N'", "v2P", "v2NX", "v2N/k2", "v2N/p256"}
+	v1s := []string{"v1N", "v1N'", "v1P", "v1NX", "v1N/k2", "v1N/p256", "v1NL", "v1LN"}
+	v2s := []string{"v2N", "v2N'", "v2P", "v2NX", "v2N/k2", "v2N/p256", "v2LN"}
 	if thorough {
-		v1s = append(v1s, "v1M", "v1XN", "v1Nexp")
-		v2s = append(v2s, "v2M", "v2Nexp")
+		v1s = append(v1s, "v1M", "v1XN", "v1Nexp", "v1NLX")
+		v2s = append(v2s, "v2M", "v2Nexp", "v2LN'", "v2LNX")
 	}
 	for _, a := range v1s {
 		bundles = append(bundles, mt.bundle(a))
@@ -290,6 +316,23 @@ var c42Inits = []c42Init{
 	{"v1+v2", []string{"v1N", "v2N"}},
 	{"v1+v2extra", []string{"v1N", "v2NX"}},
 	{"v1-only-two-networks", []string{"v1NX"}},
+	{"v2-only-lower-extra-first", []string{"v2LN"}},       // primary network L, also lives on N
+	{"v1-only-lower-extra-second", []string{"v1NL"}},      // primary network N, also lives on L
+	{"v1+v2-lower-extra-first", []string{"v1LN", "v2LN"}}, // thorough only
+}
+
+// c42InitsQuick: how many of c42Inits the quick tier starts from
+const c42InitsQuick = 7
+
+// c42OrderBundle: bundles made of the own key's certificates with an extra network before the primary one. The quick tier
+// offers them with the own key only (the key check is independent of the network checks; thorough has the full product).
+func c42OrderBundle(b c42Bundle) bool {
+	for _, cc := range b.certs {
+		if slices.Contains(cc.nets, netip.MustParsePrefix(c42L)) {
+			return true
+		}
+	}
+	return false
 }
 
 type c42World struct {
@@ -407,16 +450,18 @@ type c42View struct {
 	keyID  string
 	init   cert.Version
 	nets   []netip.Prefix // what the node itself uses (CertState.myVpnNetworks)
+	addrs  []netip.Addr   // the node's own overlay addresses (CertState.myVpnAddrs), [0] = its primary address
 }
 
-func (w *c42World) view(c *mc.Check) c42View {
-	cs := w.pki.getCertState()
+func (w *c42World) view(c *mc.Check) c42View { return c42ViewOf(c, w.mt, w.pki.getCertState()) }
+
+func c42ViewOf(c *mc.Check, mt *c42Material, cs *CertState) c42View {
 	var v c42View
 	look := func(x cert.Certificate) *c42Cert {
 		if x == nil {
 			return nil
 		}
-		cc := w.mt.bySig[string(x.Signature())]
+		cc := mt.bySig[string(x.Signature())]
 		if cc == nil {
 			c.Broken("certificate in use is not one the harness minted")
 		}
@@ -424,13 +469,14 @@ func (w *c42World) view(c *mc.Check) c42View {
 	}
 	v.v1, v.v2 = look(cs.v1Cert), look(cs.v2Cert)
 	v.keyID = "?"
-	for id, k := range w.mt.keys {
+	for id, k := range mt.keys {
 		if bytes.Equal(k.raw, cs.privateKey) {
 			v.keyID = id
 		}
 	}
 	v.init = cs.initiatingVersion
 	v.nets = append([]netip.Prefix(nil), cs.myVpnNetworks...)
+	v.addrs = append([]netip.Addr(nil), cs.myVpnAddrs...)
 	return v
 }
 
@@ -453,7 +499,7 @@ func (v c42View) String() string {
 		}
 		return c.id
 	}
-	return fmt.Sprintf("v1=%s v2=%s key=%s init=%d nets=%v", id(v.v1), id(v.v2), v.keyID, v.init, v.nets)
+	return fmt.Sprintf("v1=%s v2=%s key=%s init=%d nets=%v addrs=%v", id(v.v1), id(v.v2), v.keyID, v.init, v.nets, v.addrs)
 }
 
 // effective: the networks the node lives on according to the certificates themselves (v2 is the superset by design)
@@ -562,6 +608,9 @@ func (w *c42World) step(tb testing.TB, c *mc.Check, al *c42Alpha, ev c42Ev, hist
 		if why := c42IdentityChange(before, after); why != "" {
 			// signature = what changes + which kind of transition; the precise reason is in the detail
 			what, k := "the node's overlay networks change", kind
+			if why == "the primary overlay network changes" {
+				what = "the node's primary overlay network changes"
+			}
 			if strings.Contains(why, "curve") {
 				what = "the node's curve changes"
 				if (before.v1 == nil || after.v1 == nil) && (before.v2 == nil || after.v2 == nil) {
@@ -582,8 +631,30 @@ func (w *c42World) step(tb testing.TB, c *mc.Check, al *c42Alpha, ev c42Ev, hist
 				c42InfoMu.Unlock()
 			}
 		}
+		// the same clause judged on what the node itself reports (CertState.myVpnAddrs / myVpnNetworks), independent of
+		// the harness' bookkeeping of certificates: its primary overlay address and first network never move
+		if len(before.addrs) > 0 && len(after.addrs) > 0 && before.addrs[0] != after.addrs[0] {
+			c.Violation(fmt.Sprintf("reload accepted although the node's primary overlay address moves (%s)", kind), det())
+		} else if len(before.nets) > 0 && len(after.nets) > 0 && before.nets[0] != after.nets[0] {
+			c.Violation(fmt.Sprintf("reload accepted although the node's first overlay network changes (%s)", kind), det())
+		}
+		c.Distinct("accepted_transition_orders", kind+" "+c42Order(before)+" -> "+c42Order(after))
+		if o := c42Order(after); strings.Contains(o, "<") {
+			c.Add("accepted_with_lower_extra_network", 1)
+			c.Distinct("accepted_kinds_with_lower_extra_network", kind)
+		} else if strings.Contains(o, ">") {
+			c.Add("accepted_with_higher_extra_network", 1)
+		}
 	} else {
 		c.Add("reloads_refused", 1)
+		if wellFormed {
+			c.Distinct("refused_transition_orders", before.shape()+" "+c42Order(before)+" -/-> "+sub.shape()+" "+c42Order(sub))
+			if strings.Contains(c42Order(sub), "<") && c42IdentityChange(before, sub) == "the primary overlay network changes" {
+				// the seeded class: the submitted certificates contain the old primary network, but a lower network leads
+				c.Add("refused_primary_move_by_lower_extra_network", 1)
+				c.Distinct("refused_primary_move_by_lower_extra_kinds", before.shape()+" -/-> "+sub.shape())
+			}
+		}
 		if before.String() != after.String() {
 			c.Violation("refused reload changes the certificates in use", det())
 		}
@@ -603,9 +674,7 @@ func (w *c42World) step(tb testing.TB, c *mc.Check, al *c42Alpha, ev c42Ev, hist
 			c.Violation("private key in use is not the pair of a certificate in use", det())
 		}
 	}
-	if len(after.nets) == 0 || after.nets[0] != after.effective()[0] {
-		c.Violation("node's primary network differs from its certificates' primary network", det())
-	}
+	c42JudgeState(c, after, det)
 
 	// trust store
 	caChanged := poolAfter != poolBefore
@@ -651,6 +720,89 @@ func (w *c42World) step(tb testing.TB, c *mc.Check, al *c42Alpha, ev c42Ev, hist
 			c.Add("peers_kept", 1)
 		}
 	}
+}
+
+// c42InitialLoads: "always" includes the first load. Every (bundle, key) of the alphabet is offered to a fresh
+// NewPKIFromConfig; whatever is accepted must satisfy the state invariants (pair shares key, curve and primary network;
+// the node's primary network/address is the certificates' primary network).
+func c42InitialLoads(c *mc.Check, al *c42Alpha) {
+	mt := c42Material_()
+	l := vNewLogger("c42i")
+	for _, b := range al.bundles {
+		for _, kid := range al.keys {
+			cfg := config.NewC(l)
+			if err := cfg.LoadString(c42Yaml(mt, b.raw, mt.keyYAML(kid), mt.cas["good"], "first|"+b.id+"|"+kid)); err != nil {
+				c.Broken("c42: initial config does not parse: %v", err)
+			}
+			pki, err := NewPKIFromConfig(l, cfg)
+			if err != nil {
+				c.Add("initial_loads_refused", 1)
+				continue
+			}
+			c.Add("initial_loads_accepted", 1)
+			v := c42ViewOf(c, mt, pki.getCertState())
+			det := func() any { return m{"initial_load": fmt.Sprintf("cert=%s key=%s", b.id, kid), "state": v.String()} }
+			if v.v1 != nil && v.v2 != nil {
+				c.Add("initial_loads_with_both_versions", 1)
+				if v.v1.key != v.v2.key || v.v1.curve != v.v2.curve {
+					c.Violation("initial load: v1 and v2 certificates in use do not share one key pair", det())
+				}
+				if v.v1.nets[0] != v.v2.nets[0] {
+					c.Violation("initial load: v1 and v2 certificates in use do not share the primary network", det())
+				}
+			}
+			for _, cc := range []*c42Cert{v.v1, v.v2} {
+				if cc != nil && cc.key != v.keyID {
+					c.Violation("initial load: private key in use is not the pair of a certificate in use", det())
+				}
+			}
+			c42JudgeState(c, v, det)
+		}
+	}
+}
+
+// c42JudgeState: what must hold for the certificate state in use at every instant (initial load and after every reload).
+func c42JudgeState(c *mc.Check, v c42View, det func() any) {
+	if len(v.nets) == 0 || len(v.addrs) == 0 || v.nets[0] != v.effective()[0] || v.addrs[0] != v.nets[0].Addr() {
+		c.Violation("node's primary network differs from its certificates' primary network", det())
+		return
+	}
+	// every certificate in use presents the node's primary network as ITS primary network (a peer that handshakes with
+	// the other version must see the same primary address)
+	for _, cc := range []*c42Cert{v.v1, v.v2} {
+		if cc != nil && cc.nets[0] != v.nets[0] {
+			c.Violation(fmt.Sprintf("node's primary network differs from the primary network of the v%d certificate in use", cc.version), det())
+		}
+	}
+}
+
+// c42Order classifies where the extra networks of the certificates in a view sit relative to the primary network N
+// (vacuity bookkeeping only): "-" none, "<" an extra network that sorts before N, ">" one that sorts after, "<>" both.
+func c42Order(v c42View) string {
+	one := func(cc *c42Cert) string {
+		if cc == nil {
+			return "."
+		}
+		s := ""
+		for _, p := range cc.nets {
+			if p == netip.MustParsePrefix(c42L) {
+				s += "<"
+			}
+		}
+		for _, p := range cc.nets {
+			if p == netip.MustParsePrefix(c42X) {
+				s += ">"
+			}
+		}
+		if s == "" {
+			s = "-"
+		}
+		if cc.nets[0] != netip.MustParsePrefix(c42N) {
+			s += "!" // the certificate's own first network is not N
+		}
+		return s
+	}
+	return "[v1" + one(v.v1) + " v2" + one(v.v2) + "]"
 }
 
 // c42IdentityChange names what an (accepted) transition old -> new does to the identity, "" if nothing the statement forbids.
@@ -701,7 +853,6 @@ func TestVerifC42(t *testing.T) {
 	c.Set("alphabet_cert_bundles", len(al.bundles))
 	c.Set("alphabet_keys", len(al.keys))
 	c.Set("alphabet_ca_configs", len(al.cas))
-	c.Set("initial_states", len(c42Inits))
 	c.Set("history_depth", depth)
 	c.Assume("◊ Adding or substituting a certificate version whose non-primary networks differ (v1 10.0.0.1/24 -> v1 + v2 with an extra network, or v1-only -> v2-only with a superset) is the designed v2 upgrade path (newCertState pins only the primary network): counted as information (info_secondary_networks_changed_by_design), not a violation. Dropping a network or changing the primary one is a violation.")
 	c.Assume("A key rotation (new key pair, same networks and curve) is not an identity change in the statement's sense; it is accepted by the code and not judged.")
@@ -710,8 +861,11 @@ func TestVerifC42(t *testing.T) {
 
 	var root []c42Ev
 	for i := range c42Inits {
-		root = append(root, c42Ev{B: -1, K: i})
+		if c.Thorough() || i < c42InitsQuick {
+			root = append(root, c42Ev{B: -1, K: i})
+		}
 	}
+	c.Set("initial_states", len(root))
 	var menu []c42Ev
 	crossBundles := map[string]bool{"v1N": true, "v2N": true, "v1N+v2N": true, "v2P": true, "garbage": true}
 	for b := range al.bundles {
@@ -720,6 +874,10 @@ func TestVerifC42(t *testing.T) {
 				// thorough: the full product. quick: every (bundle, key) with the good CA configuration, and every CA
 				// configuration with the own key and five representative bundles (accepted, refused and unreadable ones) —
 				// the certificate and CA halves of PKI.reload are independent code paths.
+				// The bundles with an extra network before the primary one (quick) come with the own key only.
+				if !c.Thorough() && c42OrderBundle(al.bundles[b]) && al.keys[k] != "k1" {
+					continue
+				}
 				if c.Thorough() || al.cas[ca] == "good" || (al.keys[k] == "k1" && crossBundles[al.bundles[b].id]) {
 					menu = append(menu, c42Ev{b, k, ca})
 				}
@@ -755,9 +913,11 @@ func TestVerifC42(t *testing.T) {
 			if v.v1 != nil && v.v2 != nil && (v.v1.key != v.v2.key || v.v1.nets[0] != v.v2.nets[0]) {
 				c.Violation("initial v1/v2 certificates do not share key pair and primary network", m{"init": labels()})
 			}
+			c42JudgeState(c, v, func() any { return m{"init": labels(), "state": v.String()} })
 		}
 		return w.key(c), menu
 	}
+	c42InitialLoads(c, al)
 	var stop func() bool
 	if c.Thorough() {
 		stop = c.OutOfTime
@@ -784,6 +944,14 @@ func TestVerifC42(t *testing.T) {
 		"ca_reloads_accepted", "ca_reloads_refused", "peers_that_must_be_disconnected", "peers_kept", "states_with_both_versions", "attempts_malformed_or_mismatched"} {
 		guard(c.Counter(n).Load() > 0, "%s never happened", n)
 	}
+	for _, n := range []string{"initial_loads_accepted", "initial_loads_refused", "initial_loads_with_both_versions", "accepted_with_lower_extra_network",
+		"accepted_with_higher_extra_network", "refused_primary_move_by_lower_extra_network"} {
+		guard(c.Counter(n).Load() > 0, "%s never happened", n)
+	}
+	// an extra network in front of the old primary one must have been offered (and refused) as an added version, as a
+	// replacing version and with both versions submitted
+	guard(c.DistinctCount("refused_primary_move_by_lower_extra_kinds") >= 4, "transition kinds in which a leading lower network was refused: %d", c.DistinctCount("refused_primary_move_by_lower_extra_kinds"))
+	guard(c.DistinctCount("accepted_kinds_with_lower_extra_network") >= 3, "accepted transition kinds with a lower extra network: %d", c.DistinctCount("accepted_kinds_with_lower_extra_network"))
 	guard(c.DistinctCount("mixed_outcomes") == 4, "cert/CA outcome combinations reached: %d of 4", c.DistinctCount("mixed_outcomes"))
 	guard(c.DistinctCount("identity_change_kinds_attempted") >= 6, "identity-change kinds attempted: %d", c.DistinctCount("identity_change_kinds_attempted"))
 	guard(c.DistinctCount("identity_change_kinds_refused") >= 5, "identity-change kinds refused: %d", c.DistinctCount("identity_change_kinds_refused"))
